@@ -59,7 +59,7 @@ def work_dir(prefix: str) -> Path:
 
 
 def run(module: str | Path, cfg: str | Path | None = None, *, cfg_text: str | None = None,
-        env: dict | None = None, workers: int | str = 1, timeout: float = 3600,
+        env: dict | None = None, workers: int | str = 1, timeout: float = 900,
         simulate: str | None = None, depth: int | None = None, dump: str | None = None,
         coverage: bool = False, deadlock: bool = False, seed: int | None = None,
         java_props: dict | None = None, heap: str = "8g", extra: list | None = None,
